@@ -94,6 +94,6 @@ claim("C15", "E2", "model_checking",
       "schedules with more deviations than the bound and code not reached by the harnesses are not covered; ThreadSanitizer treats the prometheus atomics as synchronisation, so statement-level points are inserted where handlers touch shared policy data (types.go TrimSpace, stringy evaluate, loader.updates)", "3/C15")
 claim("C17", "E2", "model_checking",
       "exhaustive enumeration of environment scripts x deviation-bounded schedules of the real Serve loop under a controlled scheduler with scripted listener/connections and virtual time",
-      "Every script of client connects, full/partial packets, read-deadline expiries, cancellation and accept-deadline expiries up to the length bound (also against a server in proxy mode), clock-driven pacing scripts (one byte every ten seconds, never a complete packet), steady arrivals after the cancellation, a listener closed by the caller and connections from remotes the secret store refuses, followed by a fair closing phase, is run under every schedule within the deviation bound; "
+      "Every script of client connects, full packets, full packets followed in the same segment by the beginning of a packet that is never completed, partial packets, read-deadline expiries, cancellation and accept-deadline expiries up to the length bound (also against a server in proxy mode), clock-driven pacing scripts (one byte every ten seconds, never a complete packet), steady arrivals after the cancellation, a listener closed by the caller and connections from remotes the secret store refuses, followed by a fair closing phase, is run under every schedule within the deviation bound; "
       "the event log must show a finite future deadline armed before every read, timed-out connections closed and never touched again, a connection that has not delivered a complete packet by the deadline armed when the wait began closed, and Serve returning only after the listener is closed and every connection goroutine has finished (a state with no runnable thread is a deadlock).",
       "scripts longer than the bound, more than two connections and schedules with more deviations than the bound are not explored; real timers are replaced by a virtual clock", "3/C17")
